@@ -67,38 +67,34 @@ Definition frame (body : bytes) : bytes := le_bytes 4 (len body) ++ body.
    replay_wal_file's framing loop: stop at end of file; fewer than 4 bytes left or
    a length prefix larger than the bytes remaining = torn tail (stop).
    [allocs] records every buffer size requested (C07_alloc). *)
-Fixpoint parse_frames (fuel : nat) (b : bytes) : list bytes * bool :=
+Fixpoint parse_frames (fuel : nat) (rem : N) (b : bytes) : list bytes * bool :=
   match fuel with
   | O => ([], false)
   | S fuel' =>
-    match b with
-    | [] => ([], false)
-    | _ =>
-      if len b <? 4 then ([], true)
-      else let n := le_val (firstn 4 b) in
-           let rest := skipn 4 b in
-           if len rest <? n then ([], true)
-           else let '(fs, t) := parse_frames fuel' (skipn (N.to_nat n) rest) in
-                (firstn (N.to_nat n) rest :: fs, t)
-    end
+    if rem =? 0 then ([], false)
+    else if rem <? 4 then ([], true)
+    else let n := le_val (firstn 4 b) in
+         let rest := skipn 4 b in
+         if rem - 4 <? n then ([], true)
+         else let '(fs, t) := parse_frames fuel' (rem - 4 - n) (skipn (N.to_nat n) rest) in
+              (firstn (N.to_nat n) rest :: fs, t)
   end.
-Definition parse (b : bytes) : list bytes * bool := parse_frames (S (length b)) b.
+(* [rem] is the file length taken from the metadata, as in the code *)
+Definition parse (b : bytes) : list bytes * bool := parse_frames (S (length b)) (len b) b.
 
-Fixpoint parse_allocs (fuel : nat) (b : bytes) : list N :=
+Fixpoint parse_allocs (fuel : nat) (rem : N) (b : bytes) : list (N * N) :=
   match fuel with
   | O => []
   | S fuel' =>
-    match b with
-    | [] => []
-    | _ =>
-      if len b <? 4 then []
-      else let n := le_val (firstn 4 b) in
-           let rest := skipn 4 b in
-           if len rest <? n then []
-           else n :: parse_allocs fuel' (skipn (N.to_nat n) rest)
-    end
+    if rem =? 0 then []
+    else if rem <? 4 then []
+    else let n := le_val (firstn 4 b) in
+         let rest := skipn 4 b in
+         if rem - 4 <? n then []
+         else (n, rem - 4) :: parse_allocs fuel' (rem - 4 - n) (skipn (N.to_nat n) rest)
   end.
-Definition allocs (b : bytes) : list N := parse_allocs (S (length b)) b.
+(* every buffer size requested while replaying the file, with the bytes that remained *)
+Definition allocs (b : bytes) : list (N * N) := parse_allocs (S (length b)) (len b) b.
 
 (* number of bytes covered by complete frames (repair at open truncates to this) *)
 Definition good_len (b : bytes) : N :=
@@ -629,21 +625,39 @@ Definition obs := (list (N * N * N) * state * N * stats)%type.
 Definition probe := (nat * nat * nat * obs)%type.
 Definition cycle := (list op * list probe * (nat * nat * nat))%type.
 
-Definition probe_ok (mac : bytes -> bytes) (d : disk) (w : wstate) (ops : list op) (p : probe) : bool :=
-  let '(i, a, b, (ls, st, nxt, sts)) := p in
-  let dc := crash_disk pc_deser mac pc_ser pc_enc_changes pc_ser_hdr pc_enc_map d w ops i a b in
+Definition probe_eqb (i a b : nat) (p : probe) : bool :=
+  let '(i', a', b', _) := p in Nat.eqb i i' && Nat.eqb a a' && Nat.eqb b b'.
+Definition obs_ok (mac : bytes -> bytes) (dc : disk) (o : obs) : bool :=
+  let '(ls, st, nxt, sts) := o in
   let r := open_rstate pc_deser mac pc_val_ok pc_dec_changes pc_deser_hdr pc_dec_map dc in
   list_eqb triple_eqb (listing dc) ls && state_eqb (r_state r) st && (r_ctr r + 1 =? nxt) &&
   stats_eqb (r_stats r) sts.
+Definition probes_at (mac : bytes -> bytes) (d : disk) (acts : list action) (idx : nat) (probes : list probe) : bool :=
+  forallb (fun p : probe => let '(i, a, b, o) := p in
+           if Nat.eqb i idx then obs_ok mac (exec d (cut acts a b)) o else true) probes.
+
+(* one pass over the operations: checks every probe and returns the crash disk the
+   next cycle continues from (same disks as [crash_disk], computed incrementally) *)
+Fixpoint walk (mac : bytes -> bytes) (d : disk) (w : wstate) (ops : list op) (idx : nat)
+              (probes : list probe) (nxt : nat * nat * nat) : bool * disk :=
+  match ops with
+  | [] => (probes_at mac d [] idx probes, d)
+  | o :: tl =>
+      let '(acts, w') := x_op_actions mac d w o in
+      let ok_here := probes_at mac d acts idx probes in
+      let '(ok_rest, dn) := walk mac (exec d acts) w' tl (S idx) probes nxt in
+      (ok_here && ok_rest,
+       let '(i, a, b) := nxt in if Nat.eqb i idx then exec d (cut acts a b) else dn)
+  end.
 
 Fixpoint cycles_ok (mac : bytes -> bytes) (d : disk) (cs : list cycle) : bool :=
   match cs with
   | [] => true
-  | (ops, probes, (i, a, b)) :: tl =>
+  | (ops, probes, nxt) :: tl =>
       let d0 := open_disk d in
       let w0 := x_open_wstate mac d in
-      forallb (probe_ok mac d0 w0 ops) probes &&
-      cycles_ok mac (crash_disk pc_deser mac pc_ser pc_enc_changes pc_ser_hdr pc_enc_map d0 w0 ops i a b) tl
+      let '(ok, dn) := walk mac d0 w0 ops 0 probes nxt in
+      ok && cycles_ok mac dn tl
   end.
 
 Definition c06_case := list cycle.
@@ -665,7 +679,7 @@ Fixpoint cycles_prop (start : state) (start_next : N) (cs : list cycle) : bool :
   | [] => true
   | (ops, probes, (i, a, b)) :: tl =>
       forallb (probe_prop start start_next ops) probes &&
-      match find (fun p : probe => let '(i', a', b', _) := p in Nat.eqb i i' && Nat.eqb a a' && Nat.eqb b b') probes with
+      match find (probe_eqb i a b) probes with
       | Some (_, _, _, (_, st, nxt, _)) => cycles_prop st nxt tl
       | None => match tl with [] => true | _ => false end
       end
